@@ -406,6 +406,20 @@ def mt_src(prog):
              "                    \"store\" => {\n                        codes.push(CodeId::store_code(&app));\n"
              "                        raw_codes.push(raw.store_code(Box::new(Ctr::new())));\n"
              "                        (serde_json::json!({\"ok\":true,\"kind\":\"none\"}), serde_json::json!({\"ok\":true,\"kind\":\"none\"}))\n                    }\n")
+    # the harness's helpers that do not talk to a contract: block information, code information
+    o.append("                    \"update_block\" => {\n"
+             "                        app.update_block(|b| { b.height += val; b.time = b.time.plus_seconds(5 * val); });\n"
+             "                        raw.update_block(|b| { b.height += val; b.time = b.time.plus_seconds(5 * val); });\n"
+             "                        (serde_json::json!({\"ok\":true,\"kind\":\"none\"}), serde_json::json!({\"ok\":true,\"kind\":\"none\"}))\n                    }\n"
+             "                    \"set_block\" => {\n"
+             "                        let mut b = app.block_info(); b.height += val; b.time = b.time.plus_seconds(5 * val); app.set_block(b);\n"
+             "                        let mut b = raw.block_info(); b.height += val; b.time = b.time.plus_seconds(5 * val); raw.set_block(b);\n"
+             "                        (serde_json::json!({\"ok\":true,\"kind\":\"none\"}), serde_json::json!({\"ok\":true,\"kind\":\"none\"}))\n                    }\n"
+             "                    \"code_info\" => {\n"
+             "                        let i = (val as usize).saturating_sub(1);\n"
+             "                        let pr = app.code_info(codes[i].code_id()).map(|c| mt::code_info_json(&c, 1)).map_err(|e| e.to_string());\n"
+             "                        let rr = raw.wrap().query_wasm_code_info(raw_codes[i]).map(|c| mt::code_info_json(&c, 1)).map_err(|e| e.to_string());\n"
+             "                        (mt::res_value(pr, 0), mt::res_value(rr, 0))\n                    }\n")
     # instantiate
     o.append("                    \"instantiate\" => {\n                        let code = codes.last().unwrap();\n"
              "                        let (label, admin, salt) = (s(\"label\"), s(\"admin\"), s(\"salt\"));\n"
@@ -470,7 +484,11 @@ def mt_src(prog):
     o.append("                    _ => (serde_json::json!({\"ok\":false,\"kind\":\"absent\"}), serde_json::json!({\"ok\":false,\"kind\":\"absent\"})),\n"
              "                };\n"
              "                let pa = ctr_p.as_ref().map(|p| p.contract_addr.clone());\n"
-             "                let pview = mt::view(&app.app(), pa.as_ref());\n                let rview = mt::view(&raw, ctr_r.as_ref());\n"
+             "                let mut pview = mt::view(&app.app(), pa.as_ref());\n                let mut rview = mt::view(&raw, ctr_r.as_ref());\n"
+             "                pview[\"height\"] = serde_json::json!(app.block_info().height.to_string());\n"
+             "                rview[\"height\"] = serde_json::json!(raw.block_info().height.to_string());\n"
+             "                pview[\"time\"] = serde_json::json!(app.block_info().time.nanos().to_string());\n"
+             "                rview[\"time\"] = serde_json::json!(raw.block_info().time.nanos().to_string());\n"
              "                mt::emit_op(\"%s\", hi, si, op, pres, rres, pview, rview, pa == ctr_r);\n"
              "            }\n          }));\n"
              "          if let Err(m) = res { let (si, op) = cur.take(); mt::emit_panic(\"%s\", hi, si, &op, &m); }\n"
